@@ -129,7 +129,7 @@ def plainWordB (part : Text) : Bool :=
   !(part == "nounderline".toList) && !(part == "strike".toList) && !(part == "nostrike".toList) &&
   !(part == "blink".toList) && !(part == "noblink".toList) && !(part == "reverse".toList) &&
   !(part == "noreverse".toList) && !(part == "hidden".toList) && !(part == "nohidden".toList) &&
-  !(part == "roman".toList) && !(part == "sans".toList) && !(part == "mono".toList) &&
+  !(part == "roman".toList || part == "sans".toList || part == "mono".toList) &&
   !(startsWith "border:".toList part) && !(startsWith ['['] part && endsWith [']'] part)
 
 theorem parsePart_plain_fg (T : Tables) (a : Attrs) (w : Text) (h : plainWordB w = true)
@@ -137,10 +137,10 @@ theorem parsePart_plain_fg (T : Tables) (a : Attrs) (w : Text) (h : plainWordB w
     parsePart T a w = (parseColor T w).map fun c => { a with color := some c } := by
   unfold plainWordB at h
   simp only [Bool.and_eq_true, Bool.not_eq_true'] at h
-  obtain ⟨⟨⟨⟨⟨⟨⟨⟨⟨⟨⟨⟨⟨⟨⟨⟨⟨⟨⟨k1, k2⟩, k3⟩, k4⟩, k5⟩, k6⟩, k7⟩, k8⟩, k9⟩, k10⟩, k11⟩, k12⟩, k13⟩, k14⟩, k15⟩,
-    k16⟩, k17⟩, k18⟩, k19⟩, k20⟩ := h
+  obtain ⟨⟨⟨⟨⟨⟨⟨⟨⟨⟨⟨⟨⟨⟨⟨⟨⟨k1, k2⟩, k3⟩, k4⟩, k5⟩, k6⟩, k7⟩, k8⟩, k9⟩, k10⟩, k11⟩, k12⟩, k13⟩, k14⟩, k15⟩,
+    k16⟩, k17⟩, k18⟩ := h
   unfold parsePart
-  simp only [k1, k2, k3, k4, k5, k6, k7, k8, k9, k10, k11, k12, k13, k14, k15, k16, k17, k18, k19, k20,
+  simp only [k1, k2, k3, k4, k5, k6, k7, k8, k9, k10, k11, k12, k13, k14, k15, k16, k17, k18,
     h1, h2, Bool.false_eq_true, if_false, Bool.or_self]
 
 theorem parsePart_plain_bg (T : Tables) (a : Attrs) (w : Text) (h : plainWordB w = true)
@@ -148,10 +148,10 @@ theorem parsePart_plain_bg (T : Tables) (a : Attrs) (w : Text) (h : plainWordB w
     parsePart T a w = (parseColor T (w.drop 3)).map fun c => { a with bgcolor := some c } := by
   unfold plainWordB at h
   simp only [Bool.and_eq_true, Bool.not_eq_true'] at h
-  obtain ⟨⟨⟨⟨⟨⟨⟨⟨⟨⟨⟨⟨⟨⟨⟨⟨⟨⟨⟨k1, k2⟩, k3⟩, k4⟩, k5⟩, k6⟩, k7⟩, k8⟩, k9⟩, k10⟩, k11⟩, k12⟩, k13⟩, k14⟩, k15⟩,
-    k16⟩, k17⟩, k18⟩, k19⟩, k20⟩ := h
+  obtain ⟨⟨⟨⟨⟨⟨⟨⟨⟨⟨⟨⟨⟨⟨⟨⟨⟨k1, k2⟩, k3⟩, k4⟩, k5⟩, k6⟩, k7⟩, k8⟩, k9⟩, k10⟩, k11⟩, k12⟩, k13⟩, k14⟩, k15⟩,
+    k16⟩, k17⟩, k18⟩ := h
   unfold parsePart
-  simp only [k1, k2, k3, k4, k5, k6, k7, k8, k9, k10, k11, k12, k13, k14, k15, k16, k17, k18, k19, k20,
+  simp only [k1, k2, k3, k4, k5, k6, k7, k8, k9, k10, k11, k12, k13, k14, k15, k16, k17, k18,
     h1, Bool.false_eq_true, if_false, if_true, Bool.or_self]
 end Ptk.C19
 
@@ -226,6 +226,19 @@ theorem lookup_hash_none {α} (l : List (Text × α)) (t : Text) (h : ∀ kv ∈
   apply h kv hkv
   rw [heq]; rfl
 
+theorem isHexDigit_iff (ch : Char) : isHexDigit ch = (hexVal? ch).isSome := by
+  unfold isHexDigit hexVal?
+  simp only
+  by_cases h1 : 48 ≤ ch.toNat ∧ ch.toNat ≤ 57
+  · simp [h1]
+  · by_cases h2 : 97 ≤ ch.toNat ∧ ch.toNat ≤ 102
+    · simp [h1, h2]
+    · by_cases h3 : 65 ≤ ch.toNat ∧ ch.toNat ≤ 70
+      · simp [h1, h2, h3]
+      · simp only [h1, h2, h3, if_false, Option.isSome_none]
+        simp only [Bool.or_eq_false_iff, Bool.and_eq_false_iff, decide_eq_false_iff_not]
+        omega
+
 /-- `parse_color('#' + six hex digits)` is the six digits -/
 theorem parseColor_hash_hex (T : Tables) (hT : EncDecOk T) (hS : StyleOk T) (c : Text) (hh : IsHex6 c) :
     parseColor T ('#' :: c) = some c := by
@@ -251,7 +264,10 @@ theorem parseColor_hash_hex (T : Tables) (hT : EncDecOk T) (hS : StyleOk T) (c :
     exact (hS.aliasKeys kv hkv).2 (heq ▸ hh)
   unfold parseColor
   simp only [hn1, Bool.false_eq_true, if_false, ha1, hlow, ha2]
-  simp [ha3, hh.1]
+  have hall : c.all isHexDigit = true := by
+    simp only [List.all_eq_true, isHexDigit_iff]
+    exact hh.2
+  simp [ha3, hh.1, hall]
 
 theorem parseColor_name (T : Tables) (n : Text) (hn : n ∈ T.ansiNames) : parseColor T n = some n := by
   unfold parseColor
